@@ -6,6 +6,7 @@ pub mod c03;
 pub mod c04;
 pub mod c05;
 pub mod c06;
+pub mod c07;
 pub mod c18;
 
 pub fn registry() -> Vec<PropEntry> {
@@ -16,6 +17,7 @@ pub fn registry() -> Vec<PropEntry> {
         PropEntry { id: "C04", run: c04::run, replay: c04::replay },
         PropEntry { id: "C05", run: c05::run, replay: c05::replay },
         PropEntry { id: "C06", run: c06::run, replay: c06::replay },
+        PropEntry { id: "C07", run: c07::run, replay: c07::replay },
         PropEntry { id: "C18", run: c18::run, replay: c18::replay },
     ]
 }
